@@ -2,7 +2,9 @@
 
 Accepts exactly this subset in the class bodies of `_rwlock.py` (anything else -> ExtractError, the lock half of C20
 becomes undecided, never a violation):
-   self.X.acquire() / self.X.release()            X an attribute initialised with threading.Lock()
+   self.X.acquire() / self.X.release()            X an attribute initialised with threading.Lock() or threading.RLock()
+                                                  (RLock: owned by the acquiring thread, re-entrant, release by another
+                                                  thread is an error - modelled with an owner variable)
    lock.acquire() / lock.release()                `lock` a method parameter (bound at the call site)
    self.C += 1 / self.C -= 1                      split into a READ and a WRITE micro-step (no atomicity assumed)
    if self.C == k: <one of the lock statements>
@@ -44,6 +46,7 @@ class Extractor:
         if "RWLock" not in self.classes or "_LightSwitch" not in self.classes:
             raise ExtractError("classes RWLock / _LightSwitch not found")
         self.locks = []       # shared lock variables
+        self.rlocks = set()   # those of them that are re-entrant, OWNED locks (threading.RLock)
         self.counters = []
         self.fields = {}      # RWLock field -> ('lock', name) | ('switch', name)
         self._init()
@@ -65,9 +68,11 @@ class Extractor:
             if name is None or not isinstance(v, ast.Call):
                 raise ExtractError("unsupported initialisation (line %d)" % st.lineno)
             f = v.func
-            if isinstance(f, ast.Attribute) and f.attr == "Lock":
+            if isinstance(f, ast.Attribute) and f.attr in ("Lock", "RLock") and not v.args and not v.keywords:
                 self.fields[name] = ("lock", name)
                 self.locks.append(name)
+                if f.attr == "RLock":
+                    self.rlocks.add(name)
             elif isinstance(f, ast.Name) and f.id == "_LightSwitch":
                 self.fields[name] = ("switch", name)
                 if v.args or v.keywords:
@@ -91,7 +96,8 @@ class Extractor:
                         raise ExtractError("_LightSwitch counter does not start at 0")
                 elif n == "mutex":
                     v = st.value
-                    fresh = isinstance(v, ast.Call) and isinstance(v.func, ast.Attribute) and v.func.attr == "Lock" and not v.args
+                    fresh = isinstance(v, ast.Call) and isinstance(v.func, ast.Attribute) and v.func.attr in ("Lock", "RLock") and not v.args
+                    self.switch_mutex_rlock = fresh and v.func.attr == "RLock"
                     if not fresh:
                         params = [a.arg for a in sw_init.args.args]
                         defaults = dict(zip(params[len(params) - len(sw_init.args.defaults):], sw_init.args.defaults))
@@ -105,6 +111,8 @@ class Extractor:
             m = self._mutex_of(name)
             if m not in self.locks:
                 self.locks.append(m)
+                if getattr(self, "switch_mutex_rlock", False):
+                    self.rlocks.add(m)
 
     def _mutex_of(self, switch):
         return "_LightSwitch.shared-default-mutex" if self.shared_switch_mutex else switch + ".mutex"
